@@ -270,7 +270,7 @@ def judge_export_files(ctx, case):
         shutil.rmtree(d, ignore_errors=True)
 
 
-LONG_SIZES = (255, 256, 257, 300, 500, 501, 512, 513, 640, 1000, 1001, 1024, 1025, 2048, 2049, 4097)
+LONG_SIZES = (255, 256, 257, 300, 500, 501, 512, 513, 640, 1000, 1001, 1024, 1025, 2048, 2049, 4097, 4100, 8193, 16385)
 
 
 def judge_long_listing(ctx, case):
@@ -410,9 +410,10 @@ def run(ctx):
         case["exports"] = exports
         judge_export_files(ctx, case)
     # long listings: quick = the sizes up to 1025 spread over the shards (two per shard), thorough = all sizes x purposes
-    sizes = [z for z in LONG_SIZES if z <= 1025] if not ctx.thorough else list(LONG_SIZES) * 3
+    # (quick: everything up to 1025 rows plus ONE listing just beyond 4096 rows, ~25 s in one shard)
+    sizes = [z for z in LONG_SIZES if z <= 1025] + [4097 + (ctx.seed % 2) * 3] if not ctx.thorough else list(LONG_SIZES) * 2
     for zi, z in enumerate(sizes):
-        if not ctx.mine(zi):
+        if not ctx.mine_once(zi):
             continue
         case = gen_case(rnd, zi)
         case.update({"purpose_listed": (44, 49, 84)[(zi + ctx.seed) % 3], "n": z, "start": rnd.choice([0, 0, 7, rnd.randrange(0, H - z)]),
